@@ -43,6 +43,10 @@ def _run_variant(args):
         if src.count(v["old"]) < 1:
             return (v["id"], "stale", f"anchor text not found in {v['file']}")
         new = src.replace(v["old"], v["new"], 1 if not v.get("all") else -1)
+        for (o2, n2) in v.get("more", ()):          # further edits of the same file (helper definition + call site)
+            if new.count(o2) < 1:
+                return (v["id"], "stale", f"anchor text of a secondary edit not found in {v['file']}")
+            new = new.replace(o2, n2, 1)
         try:
             compile(new, path, "exec")
         except SyntaxError as e:
